@@ -51,7 +51,8 @@ SeqPre(o, s) ==
   /\ (o.op \in {"vector-copy!", "vector-reverse-copy!"} => Len(o.ks) = 3)
   /\ (o.op = "vector-swap!" => Len(o.ks) = 2 /\ s[o.v] # <<>>)
   /\ (o.op = "append!" => o.v # o.w)
-  /\ (o.op \in {"append", "append!", "append-reverse", "concatenate", "vector-append", "vector-concatenate", "append-map"} => Len(s[o.v]) + Len(s[o.w]) <= 40)
+  /\ (o.op \in {"append", "append!", "append-reverse", "concatenate", "vector-append", "vector-concatenate"} => Len(s[o.v]) + Len(s[o.w]) <= 40)
+  /\ (o.op = "append-map" => Len(s[o.v]) <= 30)
 SeqEval(o, s, M) ==
   LET A == s[o.v]  C == s[o.w]  n == Len(s[o.v])
       P(e) == Pred(o.x, o.k, e)
@@ -123,18 +124,18 @@ SeqEval(o, s, M) ==
        [] Is("vector-partition") -> Res(<<SelectSeq(A, P) \o SelectSeq(A, NP)>>, <<Len(SelectSeq(A, P))>>)
        [] Is("vector-empty?") -> Res(<<>>, <<B(A = <<>>)>>)
 SeqLaws(s, live, M) ==
-  \A v \in live, w \in live :
-    LET A == s[v] C == s[w]
-        E(name, x, k) == SeqEval(Op(name, v, w, k, x, <<>>), s, M)
-        N(name, x, k) == E(name, x, k).new
-    IN /\ \A x \in 0..Len(A) :
-            /\ N("take", x, 0)[1] \o N("drop", x, 0)[1] = A /\ N("drop-right", x, 0)[1] \o N("take-right", x, 0)[1] = A
-       /\ \A x \in 0..(NPred - 1), k \in 0..(M - 1) :
-            /\ N("span", x, k)[1] \o N("span", x, k)[2] = A /\ N("break", x, k)[1] \o N("break", x, k)[2] = A
-            /\ Len(N("filter", x, k)[1]) + Len(N("remove", x, k)[1]) = Len(A)
-            /\ N("partition", x, k) = <<N("filter", x, k)[1], N("remove", x, k)[1]>>
-            /\ E("count", x, k).obs = {<<Len(N("filter", x, k)[1])>>}
-       /\ N("reverse", 0, 0)[1] = Reverse(A) /\ N("append-reverse", 0, 0)[1] = Reverse(A) \o C
-       /\ ToSet(N("delete-duplicates", 0, 0)[1]) = ToSet(A) /\ Len(N("delete-duplicates", 0, 0)[1]) = Cardinality(ToSet(A))
-       /\ \A k \in 0..(M - 1) : k \notin ToSet(N("delete", 0, k)[1])
+  /\ \A v \in live :
+       LET A == s[v]
+           E(name, x, k) == SeqEval(Op(name, v, v, k, x, <<>>), s, M)
+           N(name, x, k) == E(name, x, k).new
+       IN /\ \A x \in 0..Len(A) :
+               /\ N("take", x, 0)[1] \o N("drop", x, 0)[1] = A /\ N("drop-right", x, 0)[1] \o N("take-right", x, 0)[1] = A
+          /\ \A x \in 0..(NPred - 1), k \in 0..(M - 1) : \A sp \in {N("span", x, k)}, br \in {N("break", x, k)}, fl \in {N("filter", x, k)[1]}, rm \in {N("remove", x, k)[1]} :
+               /\ sp[1] \o sp[2] = A /\ br[1] \o br[2] = A
+               /\ Len(fl) + Len(rm) = Len(A) /\ N("partition", x, k) = <<fl, rm>>
+               /\ E("count", x, k).obs = {<<Len(fl)>>}
+          /\ N("reverse", 0, 0)[1] = Reverse(A)
+          /\ \A dd \in {N("delete-duplicates", 0, 0)[1]} : ToSet(dd) = ToSet(A) /\ Len(dd) = Cardinality(ToSet(A))
+          /\ \A k \in 0..(M - 1) : k \notin ToSet(N("delete", 0, k)[1])
+  /\ \A v \in live, w \in live : SeqEval(Op("append-reverse", v, w, 0, 0, <<>>), s, M).new[1] = Reverse(s[v]) \o s[w]
 =======================================================================
